@@ -325,6 +325,13 @@ def run(ctx: Ctx):
                "Project.schedule then fails with a TypeError in dateToIdx(None)",
                key="R11.6|ModelBuilder.build|end defined")
     ctx.floor("R11.6", 1)
+    # the passes are capped, and so is the text: a macro calling itself twice doubles the text on every pass
+    grows = [n for n in own_nodes(em) if isinstance(n, ast.If) and "len(content)" in norm(n.test) and any(isinstance(x, ast.Raise) for x in n.body)
+             and any(any(n is y for y in ast.walk(w)) for w in caps)]
+    ctx.ob("R11.5", f"{em.qual}: the size of the expanded text is bounded inside the loop", em, bool(grows),
+           "expansion stops with an error when the text outgrows its bound" if grows else
+           "only the number of passes is bounded: `macro m [ ${m} ${m} ]` doubles the text on each of the 100 passes and the parser does not return",
+           key="R11.5|_expand_macros|size cap")
     ctx.floor("R11.1", 30)
     ctx.floor("R11.2", 5)
     ctx.floor("R11.3", 3)
